@@ -83,6 +83,61 @@ def publication_rules(prog, chk, pid):
                     for t in tg:
                         if isinstance(t, ast.Subscript) and isinstance(t.value, ast.Name) and t.value.id in aliases:
                             chk.fail(P("replace-only"), m.qualname, ast.unparse(n)[:60], where(n), "element store through a local alias of the shared %s" % aliases[t.value.id])
+            # the same objects reached through the instance dictionary: d = self.__dict__ / vars(self) (live) or a shallow copy of it (the VALUES are still the
+            # shared objects): d["_Point..__precompute"] may be rebound in a copy, but the list / tuple found there must not be changed in place
+            def inst_dict(e):
+                if isinstance(e, ast.Attribute) and e.attr == "__dict__" and isinstance(e.value, ast.Name) and e.value.id == "self":
+                    return "live"
+                if isinstance(e, ast.Call) and isinstance(e.func, ast.Name) and e.func.id == "vars" and len(e.args) == 1 and isinstance(e.args[0], ast.Name) and e.args[0].id == "self":
+                    return "live"
+                if isinstance(e, ast.Call) and isinstance(e.func, ast.Attribute) and e.func.attr == "copy" and not e.args and inst_dict(e.func.value):
+                    return "copy"
+                if isinstance(e, ast.Call) and isinstance(e.func, ast.Name) and e.func.id == "dict" and len(e.args) == 1 and inst_dict(e.args[0]):
+                    return "copy"
+                if isinstance(e, ast.Call) and isinstance(e.func, ast.Attribute) and e.func.attr == "copy" and len(e.args) == 1 and inst_dict(e.args[0]):
+                    return "copy"  # copy.copy(self.__dict__)
+                return None
+
+            dnames = {}
+            for n in ast.walk(fn):
+                if isinstance(n, ast.Assign) and len(n.targets) == 1 and isinstance(n.targets[0], ast.Name) and inst_dict(n.value):
+                    dnames[n.targets[0].id] = inst_dict(n.value)
+
+            def shared_entry(e):
+                """attribute name when e is <instance dict or copy>["..__precompute" / "..__coords"]"""
+                if isinstance(e, ast.Subscript) and isinstance(e.slice, ast.Constant) and isinstance(e.slice.value, str) and e.slice.value.endswith(SHARED):
+                    kind = inst_dict(e.value) or (dnames.get(e.value.id) if isinstance(e.value, ast.Name) else None)
+                    if kind:
+                        return e.slice.value, kind
+                return None
+
+            entry_alias = {}
+            for n in ast.walk(fn):
+                if isinstance(n, ast.Assign) and len(n.targets) == 1 and isinstance(n.targets[0], ast.Name) and shared_entry(n.value):
+                    entry_alias[n.targets[0].id] = shared_entry(n.value)[0]
+            for n in ast.walk(fn):
+                tgts = []
+                if isinstance(n, ast.Assign):
+                    tgts = [(t, "store") for t in n.targets]
+                elif isinstance(n, ast.AugAssign):
+                    tgts = [(n.target, "in-place update")]
+                elif isinstance(n, ast.Delete):
+                    tgts = [(t, "deletion") for t in n.targets]
+                for t, how in tgts:
+                    inner = t.value if isinstance(t, ast.Subscript) else None
+                    se = shared_entry(inner) if inner is not None else None
+                    if se or (isinstance(inner, ast.Name) and inner.id in entry_alias):
+                        n_sites += 1
+                        chk.fail(P("replace-only"), m.qualname, ast.unparse(n)[:60], where(n), "%s inside the shared %s reached through the instance dictionary (a shallow copy of __dict__ still holds the very object other threads are reading)" % (how, se[0] if se else entry_alias[inner.id]))
+                    se2 = shared_entry(t)
+                    if se2 and se2[1] == "live" and mname not in ("__init__", "__setstate__") and how != "store":
+                        n_sites += 1
+                        chk.fail(P("replace-only"), m.qualname, ast.unparse(n)[:60], where(n), "%s of the shared %s through the live instance dictionary" % (how, se2[0]))
+                if isinstance(n, ast.Call) and isinstance(n.func, ast.Attribute) and n.func.attr in MUTATORS:
+                    se = shared_entry(n.func.value)
+                    if se or (isinstance(n.func.value, ast.Name) and n.func.value.id in entry_alias):
+                        n_sites += 1
+                        chk.fail(P("replace-only"), m.qualname, ast.unparse(n)[:60], where(n), "mutating call on the shared %s reached through the instance dictionary" % (se[0] if se else entry_alias[n.func.value.id]))
         chk.info["%s_shared_store_sites" % cname] = n_sites
         # ---- publish-last
         m = cls.methods.get("_maybe_precompute")
